@@ -459,6 +459,9 @@ func runC04(c *Ctx) {
 		})
 	}
 
+	// replies built from backend errors: code and enhanced code travel together (class agreement for computed replies)
+	ruleErrPassthrough(c)
+
 	// ---------- R-reply-format ----------
 	ruleReplyFormat(c)
 
